@@ -74,6 +74,8 @@ type Answer struct {
 	// IDToken, when non-empty, replaces the id_token of a genuine token answer verbatim.
 	IDToken *string `json:"id_token,omitempty"`
 	Hang    bool    `json:"hang,omitempty"`
+	// Genuine: produce the genuine answer (then apply Patch / IDToken / Status), even with an empty patch.
+	Genuine bool `json:"genuine,omitempty"`
 }
 
 // NewIdP returns an empty IdP model.
@@ -323,7 +325,7 @@ func (p *IdP) backchannel(endpoint string, rw http.ResponseWriter, req *http.Req
 		<-req.Context().Done()
 		return
 	}
-	if a.Patch == nil && a.IDToken == nil {
+	if a.Patch == nil && a.IDToken == nil && !a.Genuine {
 		ct := a.CT
 		if ct == "" {
 			ct = "application/json"
